@@ -858,6 +858,35 @@ func classifyRace(rep string) (string, bool) {
 	if len(tops) < 2 {
 		return "", false
 	}
+	// The memory raced on must be the product's business: at least one of the two accesses is made directly by
+	// keymaster code (or by the standard library on its behalf), not both from inside a third-party module working on
+	// its own package-level state (met: Dominator's lib/html header cache under two dashboard requests).
+	direct := 0
+	inAccess = false
+	for i := 0; i < len(lines); i++ {
+		t := strings.TrimSpace(lines[i])
+		if strings.HasPrefix(t, "Read at") || strings.HasPrefix(t, "Write at") || strings.HasPrefix(t, "Previous read at") || strings.HasPrefix(t, "Previous write at") {
+			inAccess = true
+			continue
+		}
+		if strings.HasPrefix(t, "Goroutine ") {
+			inAccess = false
+			continue
+		}
+		if inAccess && t != "" && !strings.HasPrefix(t, "/") && i+1 < len(lines) {
+			file := strings.TrimSpace(lines[i+1])
+			if strings.Contains(file, "/opt/veriftools/") || strings.Contains(file, "/usr/") {
+				continue // standard library / runtime frame: look at its caller
+			}
+			if !strings.Contains(file, "/go/pkg/mod/") {
+				direct++
+			}
+			inAccess = false
+		}
+	}
+	if direct == 0 {
+		return "", false
+	}
 	var fns []string
 	for _, t := range tops[:2] {
 		p := strings.SplitN(t, "|", 2)
